@@ -9,7 +9,7 @@
 (* The configuration constants (Act, LayerTab, SrcTab, Opts) are generated *)
 (* from the dump of what the real parser produced (binding A).            *)
 (***************************************************************************)
-EXTENDS Naturals, Integers, Sequences, FiniteSets, TLC, Switch
+EXTENDS Naturals, Integers, Sequences, FiniteSets, TLC, Switch, ChordsV2
 
 CONSTANTS
   Act,       \* Seq of action records, 1-based ids; children are ids
@@ -86,7 +86,9 @@ InitOneShot == [keys |-> <<>>, released |-> <<>>, other |-> <<>>, timeout |-> 0,
 InitLayout ==
   [ states |-> <<>>, waiting |-> <<>>, extra |-> <<>>, tde |-> <<>>, queue |-> <<>>,
     os |-> InitOneShot, lpc |-> <<0, 0>>, lpt |-> 0, seqs |-> <<>>, aq |-> <<>>,
-    rpt |-> NoRpt, hk |-> <<>>, hi |-> <<>>, dl |-> 0, panic |-> "" ]
+    rpt |-> NoRpt, hk |-> <<>>, hi |-> <<>>, dl |-> 0, panic |-> "",
+    chv2 |-> IF "chv2" \in DOMAIN Opts THEN CvInit ELSE <<>> ]    \* Option<ChordsV2> (ChordsV2.tla)
+HasChv2 == "chv2" \in DOMAIN Opts     \* a defchordsv2 table was configured
 
 Panic(L, site) == IF L.panic = "" THEN [L EXCEPT !.panic = site] ELSE L
 
@@ -704,8 +706,10 @@ ForceHolds(L, i) == IF i >= Caps.extra THEN L ELSE ForceHolds(WaitingIntoHold(L,
 EventL(L, ev) ==
   IF L.panic # "" THEN L
   ELSE LET L1 == IF ev.p THEN [L EXCEPT !.hi = HistPush(@, <<ev.x, ev.y>>)] ELSE L
-           pb == PushBackWrap(L1.queue, ev, Caps.queue)
-           L2 == [L1 EXCEPT !.queue = pb.q]
+           \* with a defchordsv2 table the event goes to the chords-v2 queue first (chord.rs:174 push_back_chv2,
+           \* the same Queue type and capacity)
+           pb == IF HasChv2 THEN PushBackWrap(L1.chv2.q, ev, Caps.queue) ELSE PushBackWrap(L1.queue, ev, Caps.queue)
+           L2 == IF HasChv2 THEN [L1 EXCEPT !.chv2.q = pb.q] ELSE [L1 EXCEPT !.queue = pb.q]
        IN IF pb.ov = <<>> THEN L2
           ELSE Dequeue(ForceHolds(L2, 0 - 1), pb.ov[1]).L
 
@@ -820,7 +824,22 @@ TickMain(L0) ==     \* everything after the action-queue early return
       r7 == ProcessExtraWaitings(r6.L, ce6)
   IN ProcessSeqCustom(r7.L, r7.ce)
 
-TickL(L) ==
+\* src: layout.rs Layout::tick, the chords-v2 prologue (1281-1289): tick_chv2(active_layer) drains into the layout
+\* queue (`extend` on the wrapping queue: an overflow drops the oldest event silently), then one unread chord action is
+\* moved to the action queue and input processing is paused for rapid-event-delay ticks.
+RECURSIVE ExtendWrap(_, _, _)
+ExtendWrap(q, evs, cap) == IF evs = <<>> THEN q ELSE ExtendWrap(PushBackWrap(q, Head(evs), cap).q, Tail(evs), cap)
+Chv2Step(L) ==
+  LET t == CvTick(L.chv2, Opts.chv2, Opts.chords_v2_min_idle, CurrentLayer(L))
+      g == CvGetAction(t.cv)
+      L1 == [L EXCEPT !.queue = ExtendWrap(@, t.dq, Caps.queue), !.chv2 = g.cv]
+      L2 == IF g.some
+            THEN [L1 EXCEPT !.aq = PushBackWrap(@, [x |-> 0, y |-> g.y, delay |-> g.delay, ac |-> g.ac], Caps.actionq).q,
+                            !.os.pticks = L1.os.pdelay]
+            ELSE L1
+  IN IF g.cv.panic # "" THEN Panic(L2, "chord.rs:" \o g.cv.panic) ELSE L2
+
+TickLCore(L) ==
   IF L.panic # "" THEN [L |-> L, ce |-> NoCe]
   ELSE IF L.aq # <<>>
   THEN LET e == Head(L.aq)
@@ -829,5 +848,7 @@ TickL(L) ==
           ELSE LET st == TransOrder(L1) IN
                DoAction(L1, e.ac, <<>>, e.x, e.y, e.delay, FALSE, IF st = <<>> THEN <<>> ELSE Tail(st))
   ELSE TickMain(L)
+
+TickL(L) == IF HasChv2 /\ L.panic = "" THEN TickLCore(Chv2Step(L)) ELSE TickLCore(L)
 
 =============================================================================
